@@ -165,7 +165,8 @@ def rule_r4p_debug(text, fired):
             k += 1
         if k < len(code) and code[k] == ';':
             end = k + 1
-        text = splice(text, m.start(), end, 'assert(%s);' % cond)
+        # evaluate the condition in exec mode (as the debug build does), then require it
+        text = splice(text, m.start(), end, '{ let r4_dbg: bool = %s; assert(r4_dbg); }' % cond)
         fired["R4'"] = fired.get("R4'", 0) + 1
     return text
 
